@@ -100,3 +100,9 @@ fn debug_cycle<T>(cycle: &HashMap<Link<T>, usize>) {
         );
     }
 }
+
+// Verification harnesses for the private items of this module (sources are
+// supplied by the verification harness at check time).
+#[cfg(kani)]
+#[path = "verif/k_cycle.rs"]
+mod k_cycle;
